@@ -17,6 +17,10 @@ THEOREMS = [
     "PyTrie.Props.C07.set_reads_before_writes",
     "PyTrie.Props.C07.delete_reads_before_writes",
     "PyTrie.Props.C07.set_delete_missing_atomic",
+    "PyTrie.Props.C07.set_reads_on_path",
+    "PyTrie.Props.C07.delete_reads_on_path",
+    "PyTrie.Props.C07.set_delete_missing_on_path",
+    "PyTrie.Props.C07.set_delete_retry_progress",
 ]
 RULE = ("tries built by generated histories (prune on/off), then a subset of node bodies removed from the database (every "
         "subset for small tries, random subsets otherwise, single nodes, everything), then one operation — get, exists, set, "
